@@ -12,6 +12,10 @@ import (
 // the same violation class (property + clause + signature) recurs.
 // ---------------------------------------------------------------------------
 
+// Heartbeat, when set, is called before every candidate run of the minimiser
+// (the worker uses it to show the launcher's watchdog that it is alive).
+var Heartbeat func()
+
 type vclass struct{ prop, clause, sig string }
 
 func classOf(v Violation) vclass { return vclass{v.Prop, v.Clause, v.Sig} }
@@ -50,6 +54,9 @@ func (m *minimizer) try(c *Scenario, reseeds int) bool {
 		return false
 	}
 	m.Tried++
+	if Heartbeat != nil {
+		Heartbeat()
+	}
 	r := Execute(m.t, c, m.trace)
 	if hasClass(r.Viol, m.class) {
 		m.best, m.trace = c, r.Trace
